@@ -65,7 +65,7 @@ def _prune(keep):
         if os.path.isdir(p) and n != keep:
             ents.append((os.path.getmtime(p), p))
     ents.sort(reverse=True)
-    keep_n = int(os.environ.get("VERIF_KEEP_TREES", "10"))
+    keep_n = int(os.environ.get("VERIF_KEEP_TREES", "4"))
     for _, p in ents[max(keep_n - 1, 0):]:
         shutil.rmtree(p, ignore_errors=True)
 
